@@ -32,6 +32,18 @@ pub fn check(ctx: &mut Ctx, b: &[u8], what: &str) {
     if b.len() == 80 && b[7] >> 4 == 8 && b[79] >> 4 == 0xE {
         ctx.nontrivial_bytes(b);
     }
+    {
+        let m = Misaligned::new(b);
+        let same = match (guard(|| TrgV3Packet::try_from(m.slice())), &l) {
+            (Ok(Ok(a)), Ok(b2)) => format!("{:?}", a) == format!("{:?}", b2),
+            (Ok(Err(_)), Err(_)) => true,
+            _ => false,
+        };
+        if !same {
+            ctx.violation("decoding depends on the alignment of the input slice", what.to_string(), json!({"bytes": hex(b)}));
+            return;
+        }
+    }
     match (&l, r) {
         (Ok(_), false) => {
             ctx.violation("ill-formed TRG packet accepted", what.to_string(), json!({"bytes": hex(b)}));
@@ -170,6 +182,32 @@ fn run(ctx: &mut Ctx) {
                 check(ctx, &x.encode(), "trig_out bit disagreement");
             }
         }
+    });
+    // header and footer deviating from the output counter in opposite / equal / unrelated ways
+    ctx.cases("deviations", 64, |ctx, i, rng| {
+        let out = [1000u32, 0x0FFF_FFFF, 0, 0x0800_0000, 12345678][(i % 5) as usize];
+        for d in [1i64, 2, 7, 256, 65536, 0x07FF_FFFF, rng.below(1 << 27) as i64 + 1] {
+            for (dh, df) in [(-d, d), (d, -d), (d, d), (-d, -d), (d, 0), (0, d), (d, 2 * d)] {
+                let mut t = Trg::simple(5, out);
+                t.header_lo = Some(((out as i64 + dh) & 0x0FFF_FFFF) as u32);
+                t.footer_lo = Some(((out as i64 + df) & 0x0FFF_FFFF) as u32);
+                check(ctx, &t.encode(), "header / footer deviations");
+            }
+        }
+    });
+    // lengths congruent to 80 modulo 2^8, 2^16 (a length held in a narrower type), plus 2 x 80
+    ctx.cases("lengths", 12, |ctx, i, rng| {
+        let base = Trg::simple(rng.next() as u32, 77).encode();
+        let l = [80usize + 256, 80 + 512, 80 + 65536, 80 + 2 * 65536, 160, 80 + 65535, 80 + 65537, 65536, 65616 - 80, 80 + 4096, 336, 80 + 3 * 65536][i as usize];
+        let mut b = base.clone();
+        b.resize(l, 0);
+        check(ctx, &b, "length congruent to 80 modulo a power of two");
+        let mut b = base.clone();
+        while b.len() < l {
+            b.extend(&base);
+        }
+        b.truncate(l);
+        check(ctx, &b, "valid packet repeated up to a length congruent to 80");
     });
     // all orderings / ties of the counters
     ctx.cases("counters", 144, |ctx, i, _rng| {
